@@ -99,6 +99,20 @@ class CoreMixin:
             return b
         if b.op == "Undefined":
             return a
+        # `x if x is None else f(x)`: on the arm where x is known to be None, x IS None
+        cc, pol = c, True
+        while cc.op == "UnaryOp" and cc.attr == "Not":
+            cc, pol = cc.args[0], not pol
+        if cc.op == "Compare" and cc.attr in ("Is", "IsNot") and len(cc.args) == 2:
+            l_, r_ = cc.args
+            if l_.op == "Const" and l_.attr is None:
+                l_, r_ = r_, l_
+            if r_.op == "Const" and r_.attr is None:
+                none_arm_is_a = (cc.attr == "Is") == pol
+                if none_arm_is_a and a is l_:
+                    a = r_
+                elif not none_arm_is_a and b is l_:
+                    b = r_
         return self.mk("Phi", (c, a, b), None, site or c.site)
 
     def truth(self, n: Node, st: St = None) -> Optional[bool]:
@@ -687,7 +701,12 @@ class CoreMixin:
                     if val is None:
                         self._classattr_memo[key] = self.unknown(f"class-attr-no-value:{name}", site)
                     else:
-                        cfr = Frame(None, c.module, dict(fr.captured) if c.parent_func else {}, ())
+                        env = dict(fr.captured) if c.parent_func else {}
+                        # names of the class body visible at this statement: the methods defined above it
+                        for mname, mfi in c.methods.items():
+                            if getattr(mfi.node, "lineno", 0) < getattr(stmt, "lineno", 0):
+                                env[mname] = self.decorated_function(mfi, c)
+                        cfr = Frame(None, c.module, env, ())
                         v = self.eval(val, cfr, self.module_state(c.module))
                         if v.extra is None and v.op not in ("Const",):
                             v.extra = {}
